@@ -56,6 +56,16 @@ func genC20(h *H) {
 			}
 		}
 	}
+	// prefixes of valid DER signatures with the length bytes fixed up (a parser that indexes before it checks)
+	for i := 0; i < 3; i++ {
+		r, sv := h.randScalarInt(), h.randScalarInt()
+		if i == 0 {
+			r, sv = big.NewInt(1), big.NewInt(1)
+		}
+		for _, m := range derTruncFix(derEncodeRaw(minimalInt(r), minimalInt(sv))) {
+			lines = append(lines, "der_parse "+hx(m))
+		}
+	}
 	// calls that take the rare branches of Verify / RecoverPublicKey (r < p-n, nonce x >= n), each several
 	// times, so that a branch that leaves something behind changes a later answer
 	for i := 0; i < 3; i++ {
